@@ -338,7 +338,7 @@ def oracle_failure(tl, to, l, o):
         want = want[lo:] if ll is None else want[lo:lo + ll]
     if got == want: return None
     cl, co = combine_limit_and_offset(tl, to, l, o)
-    key = 'oracle-limit-zero-returns-all-rows' if cl == 0 and shape == ('plain',) else 'unlisted:oracle-window:%s' % (shape[0],)
+    key = 'unlisted:oracle-window:%s%s' % (shape[0], ':limit-zero-selects-all-rows' if cl == 0 else '')
     return Failure(key, 'oracle (documented ROWNUM semantics): translator window %r fetched with %r builds %r, which selects %r of 0..6; list semantics gives %r'
                    % ((tl, to), (l, o), ' '.join(sql.split())[-90:], got, want), {'oracle_window': [tl, to, l, o]})
 
@@ -683,7 +683,7 @@ LEVEL_TEXT = ('Machine-checked proof (Coq 8.16.1), for all row lists and all non
               'list(q) on the exact complement of the recorded defect classes (each refuted by a witness); that chained lambda steps sharing one code object read their own captured values '
               '(filter-number rule scanned from Query._process_lambda); and a characterisation of the limited-subquery family: the code MERGES a limited subquery into the outer query, which '
               'equals the nested list semantics iff the combined window keeps every row or none (sufficiency for all inputs, and for every other window a constructed counterexample). '
-              'SQLite/PostgreSQL/MySQL LIMIT sections and Oracle\'s ROWNUM form (text level) mean the window, except Oracle LIMIT 0 (finding). The model is compared with real Pony on SQLite on '
+              'SQLite/PostgreSQL/MySQL LIMIT sections and Oracle\'s ROWNUM form (text level) mean the window. The model is compared with real Pony on SQLite on '
               'generated method chains over entity, integer, string and tuple queries by vm_compute; a chain oracle against Python list operations searches for failing inputs.')
 LEVEL_NOTE = ('Trusted: Coq kernel + vm_compute; py2coq translator and source scans; the correspondence harness; list-semantics models of LIMIT/OFFSET, DISTINCT, ORDER BY and the SQL aggregates '
               '(validated against SQLite); PostgreSQL/MySQL/Oracle by documentation only (no server). Partial: first() after distinct() is proved when the ORDER BY keys identify the row; avg is '
